@@ -120,6 +120,60 @@ def TABLES():
     out.append('def install_extra_args : Bool := %s' % ('true' if any(k != 1 for _, _, k in installed) else 'false'))
     out.append('def wrapped_when_auth : List String := [%s]' % ', '.join(lean_str(v) for _, v in sorted(wrapped)))
     out.append('def handler_classes : List (String × String) := [%s]' % ', '.join('(%s, %s)' % (lean_str(k), lean_str(v)) for k, v in sorted(ctor.items())))
+    # ---- where the users dictionary, the credentials and the handlers are built: per server? -------
+    loops = [n for n in mk.body if isinstance(n, ast.For)]
+    assert len(loops) == 1, 'one loop over the server configurations'
+    loop = loops[0]
+    loop_var, loop_iter = ast.unparse(loop.target), ast.unparse(loop.iter)
+    bindings = []     # (statement text, scope) for everything that binds or mutates `users`
+    creds = []        # (variable, source, scope) for username / password
+    built = []        # (variable, scope) for hs and the handler variables
+    def touches_users(st):
+        if isinstance(st, ast.Assign):
+            for t in st.targets:
+                if ast.unparse(t) == 'users' or (isinstance(t, ast.Subscript) and ast.unparse(t.value) == 'users'):
+                    return True
+        if isinstance(st, ast.AugAssign) and ast.unparse(st.target).startswith('users'):
+            return True
+        if isinstance(st, ast.Expr) and isinstance(st.value, ast.Call) and ast.unparse(st.value.func).startswith('users.'):
+            return True
+        return False
+    def walk(stmts, scope):
+        for st in stmts:
+            if touches_users(st):
+                bindings.append((ast.unparse(st), scope))
+            if isinstance(st, ast.Assign) and len(st.targets) == 1 and isinstance(st.targets[0], ast.Name):
+                nm = st.targets[0].id
+                if nm in ('username', 'password'):
+                    creds.append((nm, ast.unparse(st.value), scope))
+                if nm == 'hs' or (nm in ctor and not ast.unparse(st.value).startswith('supervisor_auth_handler')):
+                    built.append((nm, scope))
+            if isinstance(st, ast.For):
+                walk(st.body, scope + ('/' if scope != 'function' else ':') + 'loop' if st is not loop else 'loop')
+                walk(st.orelse, scope)
+            elif isinstance(st, ast.If):
+                walk(st.body, scope + '/if:' + ast.unparse(st.test))
+                walk(st.orelse, scope + '/else:' + ast.unparse(st.test))
+            elif isinstance(st, ast.Try):
+                walk(st.body, scope); walk(st.orelse, scope); walk(st.finalbody, scope)
+                for h in st.handlers:
+                    walk(h.body, scope)
+            elif isinstance(st, (ast.With, ast.While)):
+                walk(st.body, scope)
+    walk(mk.body, 'function')
+    out.append('-- make_http_servers: everything that binds or mutates `users`, with the enclosing scope')
+    out.append('def users_bindings : List (String × String) := [%s]' % ', '.join('(%s, %s)' % (lean_str(a), lean_str(b)) for a, b in bindings))
+    out.append('def cred_sources : List (String × String × String) := [%s]' % ', '.join('(%s, %s, %s)' % (lean_str(a), lean_str(b), lean_str(c)) for a, b, c in creds))
+    out.append('def server_loop : String × String := (%s, %s)' % (lean_str(loop_var), lean_str(loop_iter)))
+    out.append('def built_scopes : List (String × String) := [%s]' % ', '.join('(%s, %s)' % (lean_str(a), lean_str(b)) for a, b in sorted(set(built))))
+    in_loop = all(sc.startswith('loop') for _, sc in built) and {'hs'} <= {a for a, _ in built}
+    out.append('def all_built_in_loop : Bool := %s' % ('true' if in_loop else 'false'))
+    per_server = (bindings == [('users = {username: password}', 'loop/if:' + (wrap_guard or ''))]
+                  and sorted(creds) == sorted([('username', "%s['username']" % loop_var, 'loop'), ('password', "%s['password']" % loop_var, 'loop')])
+                  and loop_iter == 'options.server_configs'
+                  and all(sc.startswith('loop') for _, sc in built) and {'hs'} <= {a for a, _ in built})
+    out.append('/-- the users dictionary is built afresh for each server, from that server section\'s own username and password only -/')
+    out.append('def users_per_server : Bool := %s' % ('true' if per_server else 'false'))
     # install_handler(handler, back=0): front insertion by default
     ih = find_func(_tree('supervisor/medusa/http_server.py'), 'http_server.install_handler')
     front = (ast.unparse(ih.args.defaults[0]) == '0' and 'self.handlers.insert(0, handler)' in ast.unparse(ih))
